@@ -41,7 +41,7 @@ UNBOUND_VALUES = ["x", "y", "z", "handler", "data"]
 UNBOUND_COMPONENTS = ["Unk", "RouterView"]
 HTML_TAGS = ["div", "span", "p", "input", "select", "textarea", "a", "ul", "li", "button"]
 SVG_TAGS = ["svg", "circle", "path"]
-CUSTOM_TAGS = ["my-el", "x-foo", "custom"]
+CUSTOM_TAGS = ["my-el", "x-foo", "custom", "_x-panel", "X-Upper", "my-el.v2".replace(".v2", "-v2")]
 
 PRELUDE = ("import { Comp, Foo } from './comps';\nimport * as NS from './ns';\n"
            "const Bar = {}, val = 1, obj = {}, fn1 = () => 1, cls = 'c', list = [], slotsObj = {};\n")
